@@ -243,7 +243,61 @@ var errPaths = []string{
 var (
 	appTypes        = []string{"web", "web", "user_agent", "native", "native"}
 	responseTypeSet = [][]string{{"code"}, {"code", "id_token", "id_token token"}, {"id_token", "id_token token"}, {"code", "id_token token"}}
+	// response types beyond the three canonical values (OAuth 2.0 Multiple Response Type Encoding Practices): the hybrid
+	// types, their permuted spellings (the order of the values does not matter to the RFC, a registration holds strings),
+	// duplicated values, values with unusual spacing, unknown values
+	hybridTypes  = []string{"code id_token", "code token", "code id_token token"}
+	unusualTypes = []string{"id_token code", "token code", "token id_token code", "code token id_token", "token id_token", "code code", "code  id_token", " code", "code ",
+		"token", "none", "code none", "CODE", "code,id_token", "code+id_token", "codex", "xcode id_token", "device_code", "id_token id_token"}
 )
+
+// genResponseTypes: what the client registered: mostly one of the four canonical sets; otherwise a generated list over the
+// canonical, hybrid and unusual spellings (an administrator's UI may store whatever the RP asked for)
+func genResponseTypes(t *rapid.T) []string {
+	switch rapid.IntRange(0, 5).Draw(t, "rtsclass") {
+	case 0, 1, 2:
+		return rapid.SampledFrom(responseTypeSet).Draw(t, "rts")
+	case 3:
+		return []string{"code", "id_token", "id_token token", "code id_token", "code token", "code id_token token"}
+	}
+	var out []string
+	n := rapid.IntRange(1, 4).Draw(t, "nrts")
+	for i := 0; i < n; i++ {
+		var rt string
+		switch rapid.IntRange(0, 3).Draw(t, "rtskind") {
+		case 0:
+			rt = rapid.SampledFrom([]string{"code", "id_token", "id_token token"}).Draw(t, "rtsc")
+		case 1, 2:
+			rt = rapid.SampledFrom(hybridTypes).Draw(t, "rtsh")
+		default:
+			rt = rapid.SampledFrom(unusualTypes).Draw(t, "rtsu")
+		}
+		if !contains(out, rt) {
+			out = append(out, rt)
+		}
+	}
+	return out
+}
+
+// rtClass: the flow a response type denotes, by its exact value: only "code" is the code flow; a value that merely
+// contains `code` (hybrid, permuted, duplicated, decorated) is not.
+func rtClass(rt string) string {
+	switch rt {
+	case "code":
+		return "code"
+	case "id_token", "id_token token":
+		return "implicit"
+	case "":
+		return "empty"
+	}
+	if contains(hybridTypes, rt) {
+		return "hybrid"
+	}
+	if contains(strings.Fields(rt), "code") {
+		return "other-containing-code"
+	}
+	return "other"
+}
 
 func genClient(t *rapid.T, id string) vkit.ClientSpec {
 	var cl vkit.ClientSpec
@@ -252,7 +306,7 @@ func genClient(t *rapid.T, id string) vkit.ClientSpec {
 	cl.AppType = rapid.SampledFrom(appTypes).Draw(t, "apptype")
 	cl.AuthMethod = rapid.SampledFrom([]string{"client_secret_basic", "none", "client_secret_post", "private_key_jwt"}).Draw(t, "authmethod")
 	cl.DevMode = rapid.IntRange(0, 4).Draw(t, "devmode") == 0
-	cl.ResponseTypes = rapid.SampledFrom(responseTypeSet).Draw(t, "rts")
+	cl.ResponseTypes = genResponseTypes(t)
 	cl.GrantTypes = []string{vkit.GCode, vkit.GImpl}
 	cl.Keys = map[string]string{"ka": "rsa2"}
 	n := rapid.IntRange(1, 4).Draw(t, "nreg")
@@ -363,7 +417,7 @@ func genChange(t *rapid.T, cur vkit.ClientSpec, known []string) (vkit.ClientSpec
 	case "apptype":
 		cl.AppType = rapid.SampledFrom(appTypes).Draw(t, "apptype")
 	case "response_types":
-		cl.ResponseTypes = rapid.SampledFrom(responseTypeSet).Draw(t, "rts")
+		cl.ResponseTypes = genResponseTypes(t)
 	case "unregister":
 		return cl, kind, true
 	}
@@ -371,10 +425,16 @@ func genChange(t *rapid.T, cur vkit.ClientSpec, known []string) (vkit.ClientSpec
 }
 
 func genResponseType(t *rapid.T, cl *vkit.ClientSpec) string {
-	if rapid.IntRange(0, 7).Draw(t, "rtreg") > 0 {
+	if rapid.IntRange(0, 7).Draw(t, "rtreg") > 1 {
 		return rapid.SampledFrom(cl.ResponseTypes).Draw(t, "rt")
 	}
-	return rapid.SampledFrom([]string{"code", "id_token", "id_token token", "token", ""}).Draw(t, "rt")
+	switch rapid.IntRange(0, 3).Draw(t, "rtother") {
+	case 0, 1:
+		return rapid.SampledFrom([]string{"code", "id_token", "id_token token", "token", ""}).Draw(t, "rt")
+	case 2:
+		return rapid.SampledFrom(hybridTypes).Draw(t, "rt")
+	}
+	return rapid.SampledFrom(unusualTypes).Draw(t, "rt")
 }
 
 var responseModes = []string{"", "", "query", "fragment", "form_post"}
@@ -1258,6 +1318,17 @@ func runFlow(res *vkit.Result, e *env, f Flow, idx int) flowOut {
 		}
 	}
 	res.Label("path:"+path, "rel:"+f.Relation, "err:"+f.ErrPath, "router:"+sut.Spec.Router)
+	rtReg := "unregistered"
+	if contains(cl.ResponseTypes, eff.ResponseType) {
+		rtReg = "registered"
+	}
+	res.Label("rt:" + rtClass(eff.ResponseType) + ":" + rtReg)
+	if strings.HasPrefix(eff.URI, "http://") && !loopback(eff.URI).ok && clientKnown && !cl.DevMode && cl.AppType != "native" {
+		// the class the plain-http clause is about: a registered plain-http URI of a client that is neither dev-mode nor native
+		if v, _ := allowed(&cl, eff.URI, "code"); v > 0 || cl.AppType == "user_agent" && contains(cl.RedirectURIs, eff.URI) {
+			res.Label(fmt.Sprintf("plain-http-registered:%s:rt:%s:%s:v=%d:%s", cl.AppType, rtClass(eff.ResponseType), rtReg, verdictQ, path))
+		}
+	}
 	pushKey := ""
 	if f.Pushed != nil && e.custom != nil {
 		// the class the dimension is about: what the front channel alone would get vs. what the authorized request gets
@@ -1323,7 +1394,7 @@ func directAPI(res *vkit.Result, c Flow, cl *vkit.ClientSpec, sut *vkit.SUT) {
 
 var prop = vkit.Prop[Case]{
 	ID: "C03",
-	Rule: "cases = client registration (application type x dev mode x auth method x response types x 1-4 registered URIs from a grammar x optional opted-in or dormant globs) x requested redirect_uri (registered or one of 30 near-miss relations) x response_type x response_mode x error path (24 kinds incl. pre-validation errors, request objects, storage faults, missing login) x router, driven authorize->login->callback; " +
+	Rule: "cases = client registration (application type x dev mode x auth method x response types (one of four canonical sets, all six standard types, or a generated list over canonical / hybrid `code id_token`, `code token`, `code id_token token` / permuted, duplicated, oddly spaced, decorated and unknown spellings) x 1-4 registered URIs from a grammar x optional opted-in or dormant globs) x requested redirect_uri (registered or one of 30 near-miss relations) x response_type (3/4 a registered one, else canonical / `token` / empty / hybrid / permuted, duplicated, decorated, unknown: only the exact value `code` is the code flow for the plain-http clause, a value that merely contains `code` is not, also when the answer is an error such as unauthorized_client) x response_mode x error path (24 kinds incl. pre-validation errors, request objects, storage faults, missing login) x router, driven authorize->login->callback; " +
 		"half of the cases are SEQUENCES of 2-4 such flows on one long-lived provider instance (optionally a second instance, either router, with its own storage that knows the same client ids with other URIs), for the same or another client, with a generated registration change between flows (URI removed / added / replaced, all replaced, glob opt-in switched, glob changed, dev mode switched, application type / response types changed, client unregistered and re-registered; the storage hands out a fresh record), " +
 		"later flows preferring URIs from the history of that client id (held by an earlier or the other provider's registration, requested before, registered by the other client) and the response type / mode of the previous flow, any response optionally written to a ResponseWriter that breaks after k body bytes; every response of every flow is judged against the registration in force for that flow on that provider, form_post pages by EVERY form / link / refresh in the page; " +
 		"router = op.Provider | LegacyServer via RegisterLegacyServer | a CUSTOM op.Server (struct embedding *op.LegacyServer whose VerifyAuthRequest returns a NEW request object: a model of pushed authorization requests / request_uri, deposit applied after or before the embedded verification, replacing or overlaying the front channel parameters) registered via RegisterLegacyServer or via RegisterServer with the callback mounted by hand; on custom servers 3/4 of the flows present a request_uri whose generated deposit (redirect_uri registered / near-miss / absent, response_type, response_mode, state, scope, prompt; deposited by this client, by another client, or not at all) stands behind a front channel that carries the generated, a registered or no redirect_uri; the oracle judges the request that is AUTHORIZED (the one VerifyAuthRequest returned): every Location / form target must be acceptable for its redirect_uri and response_type, a must-refuse one is answered directly, an acceptable one is delivered, the stored request carries exactly that URI; request= and request_uri are not combined (OIDC Core 6); " +
